@@ -173,8 +173,8 @@ Section SelectManyT.
     FollowsP (sm_T q i) dp dt (sm_out q x) (sm_tr q x) (sm_T tt i1).
   Proof.
     intros q i x i1 dp dt _ Y. unfold sm_out, sm_tr, sm_T.
-    destruct (apply f x) as [| bb | z | m e] eqn:A.
-    1-3: apply (followsP_yield _ _ (SelectMany f i1)); [|apply follows_self];
+    destruct (apply f x) as [| bb | z | m e | str | dm dd] eqn:A.
+    1-3, 5-6: apply (followsP_yield _ _ (SelectMany f i1)); [|apply follows_self];
          rewrite <- A; apply (selectmany_scalar f _ _ _ _ _ Y); intros m e; rewrite A; discriminate.
     assert (HP : forall w j a b, YieldsD (Chain (OfList e) (SelectMany f i1)) w j a b ->
                                  YieldsD (SelectMany f i) w j (dp + a) (dt + 1 + b)).
